@@ -295,6 +295,7 @@ type raceRoundStats struct {
 	leaves                 int
 	endSynced              []string // targets whose stream's last Sync was not followed by a Reset
 	syncLost               []string // ... and whose sync metadata is nevertheless false at the quiescent end
+	clockStepped           bool
 }
 
 func (s *raceRoundStats) nontrivial() bool {
@@ -326,6 +327,7 @@ func (s *raceRoundStats) labels(rr *raceRound) []string {
 	add(!rr.eventDriven, "opt-event-driven-off")
 	add(rr.sc.RawOrigin, "raw-origin")
 	add(rr.flapping, "flapping-connections")
+	add(s.clockStepped, "wall-clock-stepped-back(tree-leaf-check-skipped)")
 	return l
 }
 
@@ -509,12 +511,13 @@ func (rr *raceRound) run() (st *raceRoundStats, err error) {
 	for _, name := range names {
 		data := 0
 		var treeLeafCount *int64
+		var treeLeafTS int64
 		qerr := c.Query(name, []string{"*"}, func(p []string, _ *ctree.Leaf, v interface{}) error {
 			if len(p) > 0 && p[0] == metadata.Root {
 				if len(p) == 2 && p[1] == metadata.LeafCount {
 					if n, ok := v.(*pb.Notification); ok && len(n.GetUpdate()) == 1 {
 						x := n.GetUpdate()[0].GetVal().GetIntVal()
-						treeLeafCount = &x
+						treeLeafCount, treeLeafTS = &x, n.GetTimestamp()
 					}
 				}
 				return nil
@@ -546,7 +549,11 @@ func (rr *raceRound) run() (st *raceRoundStats, err error) {
 				}
 			}
 		}
-		if treeLeafCount != nil && *treeLeafCount != lc {
+		if treeLeafCount != nil && *treeLeafCount != lc && treeLeafTS > time.Now().UnixNano() {
+			// the wall clock stepped backwards: the final refresh was rejected as
+			// stale against a leaf "from the future"; not a verdict
+			st.clockStepped = true
+		} else if treeLeafCount != nil && *treeLeafCount != lc {
 			return st, fmt.Errorf("at the quiescent end, after a final UpdateMetadata, the leaf meta/targetLeaves of %s holds %d but the counter is %d", name, *treeLeafCount, lc)
 		}
 	}
